@@ -61,11 +61,11 @@ Theorem C01_static_document_survives_whitespace_pass : forall l,
 Proof. exact nuke_static_document. Qed.
 Print Assumptions C01_static_document_survives_whitespace_pass.
 
-(** templates with interpolation, `=` scripts, dynamic and conditional attributes, and `-` blocks written without
-    braces (if / for / switch, no else):
+(** templates with interpolation, `=` scripts, unescaped `!=` / `!` lines, dynamic and conditional attributes, and
+    `-` blocks written without braces (if / for / switch, no else):
     the generated body is a run of literal chunks, dynamic blocks and Go statements `stmt { ... }`, [denotes],
     standing for the segments [segs_list body]: literal HTML ([SLit]), for each `= expr` / `#{expr}` the
-    EscapeString-ed value of the expression ([SDyn]), and for each `-` line its statement around the code of its
+    EscapeString-ed value of the expression ([SDyn]; [SRaw], the value as it is, after `!`), and for each `-` line its statement around the code of its
     nested block ([SBlock]) — so the block renders exactly when, and as many times as, Go executes the statement.  [eval_segs rho] is the document
     under a valuation [rho] of the Go expressions; what Go does with a [denotes] run (a literal's value is appended,
     a dynamic block appends the escaped value or returns the error) is the trusted step. *)
@@ -135,7 +135,7 @@ Print Assumptions C01_nonvacuous.
 (** a real template with interpolation inside an element and a script line: its body is in the fragment, and its
     segments are the expected ones *)
 Definition ex2_src : bytes :=
-  lit "@goht T(a string, xs []string) {" ++ [10; 9] ++ lit "%p.c{title: #{a}, hidden ? #{a == """"}} hello #{a}!" ++ [10; 9] ++ lit "= a" ++ [10; 9] ++
+  lit "@goht T(a string, xs []string) {" ++ [10; 9] ++ lit "%p.c{title: #{a}, hidden ? #{a == """"}} hello #{a}!" ++ [10; 9] ++ lit "= a" ++ [10; 9] ++ lit "!= a" ++ [10; 9] ++
   lit "- for _, x := range xs" ++ [10; 9; 9] ++ lit "%li= x" ++ [10; 9] ++ lit "- if a != """"" ++ [10; 9; 9] ++ lit "%b yes" ++ [10] ++ lit "}" ++ [10].
 Definition ex2_items : list node :=
   Eval vm_compute in match compile_parse ex2_src with ODone (Node _ items) None => items | _ => [] end.
@@ -145,7 +145,7 @@ Example C01_nonvacuous_dynamic :
   | Node (KGoht o) body :: _ =>
       Forall dyn_node body /\
       match segs_list body with
-      | [_; _; _; SDynQ _; SBlock s0 _; _; _; SDyn _; _; _; _; SDyn _; _; SBlock s1 b1; SBlock s2 b2] =>
+      | [_; _; _; SDynQ _; SBlock s0 _; _; _; SDyn _; _; _; _; SDyn _; _; SRaw _; _; SBlock s1 b1; SBlock s2 b2] =>
           s0 = lit "if a == """"" /\
           s1 = lit "for _, x := range xs" /\ s2 = lit "if a != """"" /\
           eval_segs (fun e => lit "<" ++ e ++ lit ">") b1 = lit "<li>&lt;x&gt;</li>" ++ [10] /\
@@ -170,6 +170,7 @@ Proof.
     | |- plain _ => unfold plain
     | |- static_class _ => unfold static_class; cbn
     | |- block_stmt _ => unfold block_stmt; vm_compute
+    | |- raw_child _ => cbn [raw_child]; cbn
     | |- _ <> [] => discriminate
     | |- bytes_ok _ => unfold bytes_ok; cbn
     | |- _ \/ true = true => right; reflexivity
